@@ -46,7 +46,8 @@ def build_constraint(desc, c, variables):
     from pydcop.dcop.relations import NAryMatrixRelation, constraint_from_str
     scope = [variables[n] for n in c["scope"]]
     if c["kind"] == "matrix":
-        return NAryMatrixRelation(scope, np_table(c), name=c["name"])
+        # an optional fixed-width storage type ("int8", "int32", ...): the class accepts any np.array
+        return NAryMatrixRelation(scope, np_table(c, c.get("dtype")), name=c["name"])
     if c["kind"] == "expr":
         return constraint_from_str(c["name"], c["expr"], list(variables.values()))
     raise ValueError(c["kind"])
